@@ -77,6 +77,7 @@ LEAN_KEYWORDS = {
 
 NP_FUNCS = {"exp": "Transc.exp", "log": "Transc.log", "sqrt": "Transc.sqrt", "tanh": "Transc.tanh"}
 BINOPS = {ast.Add: "+", ast.Sub: "-", ast.Mult: "*"}
+NP_CONST_ARRAYS = {"ones": "Num.one", "zeros": "Num.zero", "ones_like": "Num.one", "zeros_like": "Num.zero"}
 
 
 def _where(node, fname):
@@ -1299,6 +1300,16 @@ class FormulaTr:
             if isinstance(op, ast.Lt):
                 return f"(decide ({a} < {b}))", "Bool"
             self.bad(n, "comparison not understood (only >= > <= < on floats)")
+        if isinstance(n, ast.UnaryOp) and isinstance(n.op, ast.Invert):
+            # `~mask` where `mask` is a local name DEFINED (soundly inlinable) as a comparison: the negated comparison
+            o = n.operand
+            if isinstance(o, ast.Name) and self.inline is not None and o.id not in self.params:
+                d = self.inline[0].definition(o.id, self.inline[1])
+                if d is not None and isinstance(d, ast.Compare):
+                    c, t = self.texpr(d)
+                    self.inlined.append((o.id, " ".join(ast.unparse(d).split())))
+                    return f"(!{c})", "Bool"
+            self.bad(n, "`~x` only of a local name defined as a comparison")
         if self.is_call(n, mod_attr="argmax", nargs=1) or self.is_call(n, mod_attr="any", nargs=1):
             c, t = self.texpr(n.args[0])
             if t != "Bool":
@@ -1481,10 +1492,20 @@ class FormulaTr:
                 return f"({NP_FUNCS[f.attr]} {self.expr(n.args[0])})"
             if isinstance(f, ast.Attribute) and self.is_np(f.value) and f.attr == "arange":
                 return self.arange_elem(n)
+            if (isinstance(f, ast.Attribute) and self.is_np(f.value) and f.attr in NP_CONST_ARRAYS and not n.keywords
+                    and len(n.args) == 1):
+                # `np.ones(shape)`, `np.zeros(shape)`, `np.ones_like(x)`, `np.zeros_like(x)` (no dtype/order keyword)
+                # in an elementwise formula: the constant 1.0 / 0.0 of ONE element.  The shape argument is not part
+                # of the per-node value (a wrong shape fails to broadcast in the real run or changes its arrays, which
+                # the correspondence sees); it must itself be call-free.
+                for sub in ast.walk(n.args[0]):
+                    if isinstance(sub, (ast.Call, ast.Lambda, ast.IfExp, ast.NamedExpr)):
+                        self.bad(n, "shape argument of np.ones/np.zeros contains a call")
+                return NP_CONST_ARRAYS[f.attr]
             if (isinstance(f, ast.Attribute) and isinstance(f.value, ast.Name) and f.value.id in self.imp.utils_alias
                     and f.value.id not in self.params and f.attr in UTILS_CALLS):
                 return self.utils_call(n, f.attr)
-            self.bad(n, "call not understood (only np.exp/log/sqrt/tanh with one argument, np.arange)")
+            self.bad(n, "call not understood (only np.exp/log/sqrt/tanh with one argument, np.arange, np.ones/zeros[_like](shape))")
         self.bad(n, "expression not understood")
 
 
@@ -1706,6 +1727,7 @@ def translate_formulas(src: str, fname: str, func: str, specs, namespace: str, o
         keep = _keep_for(old, sp.name, sp.inline)
         tr = FormulaTr(src, fname, imp, (), (local, st, keep) if keep is not None else None)
         group_text = None
+        rtype = "α"
         if sp.kind == "ifelse":
             code, group_text = _ifelse_code(sp, st, fd, tr, fname)
         elif augop is not None:
@@ -1718,6 +1740,11 @@ def translate_formulas(src: str, fname: str, func: str, specs, namespace: str, o
                 _bad(st, fname, "augmented assignment operator not understood")
             lhs = tr.expr(ast.parse(sp.target, mode="eval").body)
             code = f"({lhs} {sym} {tr.expr(value)})"
+        elif sp.kind == "mask":
+            # a boolean mask: a comparison, or `~m` of a local mask `m` defined as a comparison (ONE element)
+            code, rtype = tr.texpr(value)
+            if rtype != "Bool":
+                _bad(value, fname, "kind `mask`: the assigned value is not a comparison / negated comparison")
         else:
             code = tr.expr(value)
         any_pi = any_pi or tr.needs_pi
@@ -1733,7 +1760,7 @@ def translate_formulas(src: str, fname: str, func: str, specs, namespace: str, o
             text += "`\n    with the local definitions inlined: `" + "`, `".join(f"{a} = {b}" for a, b in tr.inlined)
         defs.append(
             f"/-- `{func}`, assignment #{sp.occ} to `{sp.target}`:\n    `{text}`\n    parameters: {keys} -/\n"
-            f"def {lean_name(sp.name)}{binder} : α :=\n  {code}\n")
+            f"def {lean_name(sp.name)}{binder} : {rtype} :=\n  {code}\n")
     head = (
         f"/-\n  GENERATED by harness/translate.py (formula extraction) from src/ethz_snow/{fname}, `{func}` - DO NOT EDIT.\n"
         "  Regenerated on every run of the property checks that own the hand-written model of this\n"
